@@ -222,6 +222,9 @@ BUILTIN_SEMANTIC = {
 }
 
 
+PROGRAM_OBSERVERS = []
+
+
 class Program:
     """one compiled (wgsl, option set): IR dump, HLSL text, HLSL AST"""
     def __init__(self, name, optname, res):
@@ -231,6 +234,8 @@ class Program:
         self.ir = res.get("ir")
         self.hlsl = res.get("hlsl")
         self.ast = hlslread.parse(self.hlsl) if self.hlsl is not None else None
+        for ob in PROGRAM_OBSERVERS:          # (checks/c03.py: recogniser of the control-flow encodings, lib/cfskel.py)
+            ob(self)
         self.types = Types(self.ir) if self.ir else None
 
     def compute_entry_points(self):
